@@ -172,6 +172,8 @@ func prelude(t *testing.T, sizes []int) {
 			{Name: "b1k", Kind: gen.KDiv, K: 1000},
 			{Name: "b4k", Kind: gen.KDiv, K: 4096},
 			{Name: "b64k", Kind: gen.KDiv, K: 65536},
+			{Name: "p2", Kind: gen.KPow2, Prefix: "blk"}, // values holding for exactly 1,2,4,...,2^k rows
+			{Name: "b3k", Kind: gen.KDiv, K: 3000},
 		}}}
 		run(t, &Case{Data: spec, Reopens: []fix.OpenCfg{{CacheCap: -1}, {Preload: true, CacheCap: -1}, {CacheCap: 1 << 20}}})
 	}
